@@ -10,17 +10,27 @@ import (
 
 func init() { gens["C10"] = genC10 }
 
+// c10Load parses a file and makes the extraction insensitive to log / metrics statements and to the names of
+// function-local variables (c10ast.Prepare)
+func c10Load(repo, rel string) (*goast.File, error) {
+	f, err := goast.Load(repo, rel)
+	if err != nil {
+		return nil, err
+	}
+	return c10ast.Prepare(f), nil
+}
+
 // c10FilterTables prints what both C10 and C11 consume from filters.go and core/store.go.
 func c10FilterTables(repo string, o *out) error {
 	o.sb.WriteString("From PDV Require Import lib.C10_Cluster.\n\n")
-	sf, err := goast.Load(repo, "server/core/store.go")
+	sf, err := c10Load(repo, "server/core/store.go")
 	if err != nil {
 		return err
 	}
 	if err := o.constZ(sf, "replicaBaseScore", "replicaBaseScore"); err != nil {
 		return err
 	}
-	f, err := goast.Load(repo, "server/schedule/filter/filters.go")
+	f, err := c10Load(repo, "server/schedule/filter/filters.go")
 	if err != nil {
 		return err
 	}
@@ -100,7 +110,7 @@ func genC10(repo string) (string, error) {
 		return "", err
 	}
 	// ---- replica_strategy.go ----
-	rs, err := goast.Load(repo, "server/schedule/checker/replica_strategy.go")
+	rs, err := c10Load(repo, "server/schedule/checker/replica_strategy.go")
 	if err != nil {
 		return "", err
 	}
@@ -108,7 +118,7 @@ func genC10(repo string) (string, error) {
 	if err != nil {
 		return "", err
 	}
-	el, err := c10ast.CompositeElems(rs, add, "filters")
+	el, err := c10ast.FirstCompositeOf(rs, add, "[]filter.Filter")
 	if err != nil {
 		return "", err
 	}
@@ -116,7 +126,7 @@ func genC10(repo string) (string, error) {
 	if err := c10Flags(&o, rs, add, "sel_add_first_flags", "sel_add_strict_flags"); err != nil {
 		return "", err
 	}
-	ch, err := c10ast.Chain(rs, add, "target")
+	ch, err := c10ast.ChainFrom(rs, add, "NewCandidates")
 	if err != nil {
 		return "", err
 	}
@@ -135,7 +145,7 @@ func genC10(repo string) (string, error) {
 	if err := c10Flags(&o, rs, rm, "sel_remove_flags"); err != nil {
 		return "", err
 	}
-	ch, err = c10ast.Chain(rs, rm, "source")
+	ch, err = c10ast.ChainFrom(rs, rm, "NewCandidates")
 	if err != nil {
 		return "", err
 	}
@@ -152,14 +162,14 @@ func genC10(repo string) (string, error) {
 		o.strList("ret_"+fn, ch, fn+": returned call")
 	}
 	imp, _ := rs.Func("ReplicaStrategy", "SelectStoreToImprove")
-	el, err = c10ast.CompositeElems(rs, imp, "filters")
+	el, err = c10ast.FirstCompositeOf(rs, imp, "[]filter.Filter")
 	if err != nil {
 		return "", err
 	}
 	o.strList("sel_improve_filters", el, "SelectStoreToImprove: extra filters")
 
 	// ---- replica_checker.go ----
-	rc, err := goast.Load(repo, "server/schedule/checker/replica_checker.go")
+	rc, err := c10Load(repo, "server/schedule/checker/replica_checker.go")
 	if err != nil {
 		return "", err
 	}
@@ -191,7 +201,7 @@ func genC10(repo string) (string, error) {
 		}
 	}
 	// ---- rule_checker.go ----
-	ru, err := goast.Load(repo, "server/schedule/checker/rule_checker.go")
+	ru, err := c10Load(repo, "server/schedule/checker/rule_checker.go")
 	if err != nil {
 		return "", err
 	}
@@ -204,7 +214,7 @@ func genC10(repo string) (string, error) {
 			return "", err
 		}
 	}
-	fitf, err := goast.Load(repo, "server/schedule/placement/fit.go")
+	fitf, err := c10Load(repo, "server/schedule/placement/fit.go")
 	if err != nil {
 		return "", err
 	}
@@ -213,7 +223,7 @@ func genC10(repo string) (string, error) {
 		return "", err
 	}
 	fmt.Fprintf(&o.sb, "Definition src_RuleFit_IsSatisfied : string := (* placement/fit.go *)\n  %s.\n", goast.Q(fitf.Src(isf.Body)))
-	lc, err := goast.Load(repo, "server/schedule/placement/label_constraint.go")
+	lc, err := c10Load(repo, "server/schedule/placement/label_constraint.go")
 	if err != nil {
 		return "", err
 	}
@@ -225,7 +235,7 @@ func genC10(repo string) (string, error) {
 		fmt.Fprintf(&o.sb, "Definition src_%s : string := (* placement/label_constraint.go *)\n  %s.\n", it[1], goast.Q(lc.Src(fd.Body)))
 	}
 	// ---- create_operator.go: the builder requests behind add / remove / replace ----
-	co, err := goast.Load(repo, "server/schedule/operator/create_operator.go")
+	co, err := c10Load(repo, "server/schedule/operator/create_operator.go")
 	if err != nil {
 		return "", err
 	}
@@ -241,7 +251,7 @@ func genC10(repo string) (string, error) {
 		o.strList("chain_"+fn, ch, "create_operator.go: "+fn)
 	}
 	// ---- checker_controller.go ----
-	cc, err := goast.Load(repo, "server/schedule/checker_controller.go")
+	cc, err := c10Load(repo, "server/schedule/checker_controller.go")
 	if err != nil {
 		return "", err
 	}
